@@ -1,10 +1,56 @@
 import Pendulum.Drv.Util
-/-! request handler for property C20 (stub until the property is built) -/
+import Pendulum.Model.TimeOfDay
+/-! request handler for property C20 (time-of-day arithmetic). Times are microseconds since 00:00.
+  `tadd|tsub <t> <h> <mi> <s> <us>`            → `ok <t'>` / `err OverflowError`
+  `tinv <t> <h> <mi> <s> <us>`                 → `ok <add> <subtract of that>`
+  `taddtd|tsubtd <t> <days> <seconds> <micros>` → `ok <t'>` / `err TypeError`
+  `tdiff <a> <b> <abs>`                        → `ok <µs>`        (a.diff(b, abs))
+  `tminus <a> <b>` / `trminus <a> <b>`         → `ok <µs>`        (a - b through __sub__ / __rsub__)
+  `tclosest|tfarthest <t> <a> <b>`             → `ok <chosen>` -/
 namespace Pendulum.Drv.C20
-open Pendulum Pendulum.Drv
+open Pendulum Pendulum.Drv Pendulum.TimeOfDay
+
+def reply : Except Kind Int → String
+  | .ok r => okInts [r]
+  | .error k => "err " ++ k.name
 
 def handle (_zs : Zones) (ws : List String) : Option String :=
   match ws with
+  | ["tadd", t, h, mi, s, us] => do
+    let t ← t.toInt?; let h ← h.toInt?; let mi ← mi.toInt?; let s ← s.toInt?; let us ← us.toInt?
+    some (reply (add t h mi s us))
+  | ["tsub", t, h, mi, s, us] => do
+    let t ← t.toInt?; let h ← h.toInt?; let mi ← mi.toInt?; let s ← s.toInt?; let us ← us.toInt?
+    some (reply (subtract t h mi s us))
+  | ["tinv", t, h, mi, s, us] => do
+    let t ← t.toInt?; let h ← h.toInt?; let mi ← mi.toInt?; let s ← s.toInt?; let us ← us.toInt?
+    match add t h mi s us with
+    | .error k => some ("err " ++ k.name)
+    | .ok r =>
+      match subtract r h mi s us with
+      | .error k => some ("err " ++ k.name)
+      | .ok r' => some (okInts [r, r'])
+  | ["taddtd", t, d, s, us] => do
+    let t ← t.toInt?; let d ← d.toInt?; let s ← s.toInt?; let us ← us.toInt?
+    some (reply (addTd t ⟨d, s, us⟩))
+  | ["tsubtd", t, d, s, us] => do
+    let t ← t.toInt?; let d ← d.toInt?; let s ← s.toInt?; let us ← us.toInt?
+    some (reply (subTd t ⟨d, s, us⟩))
+  | ["tdiff", a, b, ab] => do
+    let a ← a.toInt?; let b ← b.toInt?
+    some (okInts [diff a b (ab == "1")])
+  | ["tminus", a, b] => do
+    let a ← a.toInt?; let b ← b.toInt?
+    some (okInts [sub a b])
+  | ["trminus", a, b] => do
+    let a ← a.toInt?; let b ← b.toInt?
+    some (okInts [rsub b a])
+  | ["tclosest", t, a, b] => do
+    let t ← t.toInt?; let a ← a.toInt?; let b ← b.toInt?
+    some (okInts [closest t a b])
+  | ["tfarthest", t, a, b] => do
+    let t ← t.toInt?; let a ← a.toInt?; let b ← b.toInt?
+    some (okInts [farthest t a b])
   | _ => none
 
 end Pendulum.Drv.C20
